@@ -132,7 +132,7 @@ struct PropC19
     p.W = (int)r.range(sc == S_ONLINE_VAR ? 2 : 1, 4);
     checkupConfig(sc, p);
     if (sc == S_SHARED_VAR || sc == S_SHARED_OPT) {p.a = r.chance(0.3) ? 1 : 0;}   // constructor variant
-    int budget = 32;
+    int budget = tier == "thorough" ? 48 : 32;   // operations per recorded history
     auto take = [&](int n) {n = std::min(n, budget); budget -= n; return n;};
     if (sc == S_SHARED_OPT) {
       int np = (int)r.range(1, 4), nc = (int)r.range(1, 4);
@@ -338,7 +338,22 @@ struct PropC19
       }
       SIM_COUNT_N("optional_values_consumed", seen.size());
     }
-    if (p.longRun) {return Outcome::pass();}
+    if (p.longRun) {
+      // final state after quiescence: with a single mutating thread it is that thread's ops applied in order
+      int mutators = 0; const Task * w = nullptr;
+      for (auto & t : p.tasks) {if (t.role != 1) {++mutators; w = &t;}}
+      if (mutators == 1 && p.scenario != S_SHARED_OPT && res.finalTask >= 0) {
+        SeqModel m; m.init(p);
+        for (uint32_t rep = 0; rep < w->repeat; ++rep) {
+          for (auto & o : w->ops) {Rec r; r.kind = o.kind; r.v = o.v + rep * w->vStep; r.t = o.t + (int64_t)rep * w->tStep; r.seq = o.seq + (uint64_t)rep * w->seqStep; m.perform(r);}
+        }
+        for (auto & r : res.hist[(size_t)res.finalTask]) {
+          if (!m.apply(r)) {return Outcome::fail(std::string("final-state-mismatch|") + scenarioName(p.scenario), "after all threads had finished, " + recStr(r) + " is not what the single writer's operations produce in order");}
+        }
+        SIM_PROBE("final_state_checked_after_long_run");
+      }
+      return Outcome::pass();
+    }
 
     // ---- every report copy is a triple that one single operation produces
     if (p.scenario >= S_CHECKUP_EQ && p.scenario <= S_RELIABILITY) {
@@ -366,7 +381,7 @@ struct PropC19
     // ---- sequential explainability (the violation criterion) and linearizability (counted only)
     SeqModel m0; m0.init(p);
     std::vector<size_t> pos(res.hist.size(), 0);
-    ScSearch sc(res.hist, false);
+    ScSearch sc(res.hist, false, res.finalTask);
     bool explain = sc.go(pos, m0);
     if (sc.gaveUp) {SIM_COUNT("sc_search_gave_up"); return Outcome::pass();}
     SIM_COUNT("histories_checked_for_sequential_consistency"); SIM_COUNT_N("histories_sequentially_consistent_but_not_linearizable", 0);
@@ -380,7 +395,7 @@ struct PropC19
       return Outcome::fail(std::string("not-sequentially-explainable|") + scenarioName(p.scenario), "no total order of the calls that respects each thread's program order produces the values read: " + hs);
     }
     std::fill(pos.begin(), pos.end(), 0);
-    ScSearch lin(res.hist, true);
+    ScSearch lin(res.hist, true, res.finalTask);
     bool linear = lin.go(pos, m0);
     if (!lin.gaveUp && !linear) {SIM_COUNT("histories_sequentially_consistent_but_not_linearizable");}
     return Outcome::pass();
@@ -534,7 +549,7 @@ struct PropC19
   }
   std::vector<std::string> probeNames() const
   {
-    return {"preempted_while_holding_the_mutex", "thread_blocked_on_contended_mutex", "long_run_1e5_operations", "pct_schedule", "optional_born_with_a_value"};
+    return {"preempted_while_holding_the_mutex", "thread_blocked_on_contended_mutex", "long_run_1e5_operations", "pct_schedule", "optional_born_with_a_value", "final_state_checked_after_long_run"};
   }
   Json describe() const
   {
@@ -546,7 +561,7 @@ struct PropC19
       "watchdog (timeout) + getReport readers; RateMonitoring updater + heartbeat + getRate readers; CheckupRate<EqualTo|GreaterThan> "
       "evaluate + heartBeatCallback + getReport. Threads are fibers; a seeded scheduler (random walk / PCT priorities with 1..3 change "
       "points / random time slices) decides at every lock, unlock, atomic, API-call boundary and at plain accesses sampled with probability "
-      "{0,1/64,1/8,1/2}. Short runs (<= 32 ops) record the full history; long runs (>= 1e5 ops) use the race detector and O(1) monitors. "
+      "{0,1/64,1/8,1/2}. Short runs (<= 32 ops; <= 48 in the thorough tier) record the full history; long runs (>= 1e5 ops) use the race detector and O(1) monitors. "
       "distinct = distinct hash of the sequence (thread, synchronisation op) over the run, i.e. distinct interleavings at synchronisation "
       "points; non-trivial = at least one preemption of a runnable thread happened and >= 2 threads.");
     d.set("simulated_time_unit", "scheduler steps (yield points); steps_executed is their sum over all runs");
@@ -555,6 +570,7 @@ struct PropC19
     or_.push("integrity of every value read: self-checking blobs (torn-read), report copies must be a triple of one single operation");
     or_.push("sequential explainability of the recorded history against the C16/C17/C18 models (violation criterion); linearizability counted only");
     or_.push("optional: every consumed value stored, delivered once, per producer in store order");
+    or_.push("final observations by the main context after the join are part of every history and come last in any explaining order (a value lost or a state corrupted without any reader noticing is seen here)");
     or_.push("deadlock (all threads blocked), crash of the process");
     d.set("oracles", or_);
     Json comp = Json::object();
